@@ -282,6 +282,19 @@ def run(ck, w):
         if not any(c.endswith("Read::read") for c in flow.origin_calls(lo)):
             good = False
             ck.fail(o, pf.name, "len is not the read count", "len from %s" % flow.origin_summary(lo))
+        # nothing empties or replaces the buffer between taking `start` and appending the bytes
+        start_lens = [e for e in lens if any(x[0] == "call" and x[1] == "bytes::BytesMut::len" and x[2] == e.bb for x in so)]
+        appends = resize or events_of(lib, pf, "bytes::BytesMut::resize")
+        resets = events_of(lib, pf, "backup::FileCombiner::flush") + [
+            e for e in pf.events if e.bb in pf.live and e.name in (
+                "std::mem::take", "std::mem::replace", "bytes::BytesMut::clear", "bytes::BytesMut::split",
+                "bytes::BytesMut::split_to", "bytes::BytesMut::split_off", "bytes::BytesMut::freeze", "bytes::BytesMut::new",
+                "bytes::BytesMut::with_capacity")]
+        for m in resets:
+            if any(pf.reaches(l.bb, m.bb) or l.bb == m.bb for l in start_lens) and any(pf.reaches(m.bb, r.bb) for r in appends):
+                good = False
+                ck.fail(o, pf.name, "buffer reset between start and the append",
+                        "%s can run after start = buf.len() and before the file's bytes are appended" % m.name, m.site())
         # truncate to start+len so that the buffer holds exactly the bytes read
         tr = [e for e in pf.events if e.bb in pf.live and e.name == "bytes::BytesMut::truncate"]
         if not tr:
